@@ -1932,3 +1932,39 @@ Proof.
   destruct (run_names _ _ _ _ _ _ _ R (f_name g) (in_map f_name _ _ Ig)) as [[]|(e & Ie & En & De)].
   rewrite En. apply DV; assumption.
 Qed.
+
+(* ------------------------------------------------------------------ *)
+(* the metrics of every returned family are sorted                     *)
+(* ------------------------------------------------------------------ *)
+Section SortedOutput.
+  Context {A : Type} (ltb : A -> A -> bool).
+  Hypothesis ltb_asym : forall a b, ltb a b = true -> ltb b a = false.
+
+  Lemma insert_is_sorted x s : is_sorted ltb s = true -> is_sorted ltb (insert ltb x s) = true.
+  Proof.
+    induction s as [|y r IH]; intros S; [reflexivity|].
+    simpl insert. destruct (ltb y x) eqn:E.
+    - assert (S' : is_sorted ltb r = true) by (simpl in S; destruct r; [reflexivity|apply andb_true_iff in S; apply S]).
+      specialize (IH S'). destruct r as [|z r'].
+      + simpl. rewrite (ltb_asym _ _ E). reflexivity.
+      + simpl insert in *. destruct (ltb z x) eqn:E2.
+        * simpl is_sorted in *. apply andb_true_iff in S. destruct S as [S1 _]. rewrite S1. exact IH.
+        * simpl is_sorted in *. rewrite (ltb_asym _ _ E). exact IH.
+    - simpl is_sorted. rewrite E. simpl. exact S.
+  Qed.
+
+  Lemma isort_is_sorted l : is_sorted ltb (isort ltb l) = true.
+  Proof. induction l as [|x r IH]; [reflexivity|]. simpl. apply insert_is_sorted. exact IH. Qed.
+End SortedOutput.
+
+Lemma normalize_sorted fs : metrics_sorted (normalize fs) = true.
+Proof.
+  unfold metrics_sorted. apply forallb_forall. intros f If.
+  destruct (normalize_in _ _ If) as (g & _ & -> & _). simpl. apply isort_is_sorted. apply metric_lt_asym.
+Qed.
+
+Lemma gather_sorted_lemma lg ped ids arr : metrics_sorted (fst (gather lg ped ids arr)) = true.
+Proof. unfold gather. destruct (run lg ped ids arr ([], [])) as [st errs]. simpl. apply normalize_sorted. Qed.
+
+Lemma gatherers_sorted_lemma lg gs : metrics_sorted (fst (gatherers_gather lg gs)) = true.
+Proof. unfold gatherers_gather. destruct (merge_gatherers lg gs ([], [])) as [st errs]. simpl. apply normalize_sorted. Qed.
